@@ -10,14 +10,14 @@ package criteria_ordering
 //@   ensures result != nil && fresh(result) && fresh(*result) && model.rearranged(*result, params.Criteria)
 
 //@ func (*WeakestCriteriaOrderingResolver).OrderCriteria
-//@   property C15 C16
+//@   property C15 C16 C01 C07 C09 C20
 //@   requires model.distinctCriteria(params.Criteria) && model.validParams(*listener, params.MethodParameters) && model.coversAll(*listener, params.MethodParameters, params.Criteria)
 //@   ensures [permutation] result != nil && fresh(result) && fresh(*result) && model.rearranged(*result, params.Criteria)
 //@   ensures [the_listeners_ascending_ranking] forall k int :: 0 <= k && k < len(*result) ==> (*result)[k].Id == model.rankedId(*listener, params, k)
 //@   ensures [weakest_first] forall i int, j int :: 0 <= i && i < j && j < len(*result) ==> model.imp(*listener, params, (*result)[i].Id) <= model.imp(*listener, params, (*result)[j].Id)
 
 //@ func (*StrongestCriteriaOrderingResolver).OrderCriteria
-//@   property C15 C16
+//@   property C15 C16 C01 C07 C09 C20
 //@   requires model.distinctCriteria(params.Criteria) && model.validParams(*listener, params.MethodParameters) && model.coversAll(*listener, params.MethodParameters, params.Criteria)
 //@   ensures [permutation] result != nil && fresh(result) && fresh(*result) && model.rearranged(*result, params.Criteria)
 //@   ensures [exact_reverse_of_weakest] forall k int :: 0 <= k && k < len(*result) ==> (*result)[k].Id == model.rankedId(*listener, params, len(*result) - 1 - k)
@@ -27,14 +27,14 @@ package criteria_ordering
 //@   loop 1 invariant [asc_sorted] forall i int, j int :: 0 <= i && i < j && j < len(*ascending) ==> (*ascending)[i].Id != (*ascending)[j].Id && model.imp(*listener, params, (*ascending)[i].Id) <= model.imp(*listener, params, (*ascending)[j].Id)
 
 //@ func (*StrongestByProbabilityCriteriaOrderingResolver).OrderCriteria
-//@   property C15 C16
+//@   property C15 C16 C01 C07 C09 C20
 //@   requires model.distinctCriteria(params.Criteria) && model.validParams(*listener, params.MethodParameters) && model.coversAll(*listener, params.MethodParameters, params.Criteria)
 //@   ensures [permutation] result != nil && fresh(result) && fresh(*result) && model.rearranged(*result, params.Criteria)
 //@   loop 1 invariant [ctx] fresh(result) && len(result) == criteriaCount && criteriaCount == len(*criteria) && model.rearranged(*criteria, params.Criteria)
 //@   loop 1 invariant [reversed] forall k int :: criteriaCount - iter <= k && k < criteriaCount ==> result[k] == (*criteria)[criteriaCount - 1 - k]
 
 //@ func shuffleCriteria
-//@   property C15 C16
+//@   property C15 C16 C01 C07 C09 C20
 //@   fnparam generator ensures 0.0 <= result && result < 1.0
 //@   requires model.distinctCriteria(*criteria)
 //@   ensures [permutation] result != nil && fresh(result) && fresh(*result) && model.rearranged(*result, *criteria)
@@ -46,11 +46,12 @@ package criteria_ordering
 // inverted: smallest shifted importance / shifted importance, so a less important criterion gets the larger weight); the
 // draw loop removes elements in place inside a labelled search loop and its permutation property is assumed ("assumes").
 //@ func (*WeakestByProbabilityCriteriaOrderingResolver).OrderCriteria
-//@   property C15 C16
+//@   property C15 C16 C01 C07 C09 C20
 //@   requires model.distinctCriteria(params.Criteria) && model.validParams(*listener, params.MethodParameters) && model.coversAll(*listener, params.MethodParameters, params.Criteria)
 //@   assumes [permutation] result != nil && fresh(result) && fresh(*result) && model.rearranged(*result, params.Criteria)
 //@   loop 1 invariant [shift_so_that_the_smallest_importance_is_at_least_one] iter == 0 ==>
 //@             (sorted[0].Weight <= 1.0 ? (dif == 1.0 - sorted[0].Weight && minWeight == 1.0) : (dif == 0.0 && minWeight == sorted[0].Weight))
+//@   loop 2 hint [the_drawn_criterion_leaves_the_urn_with_its_weight] exists j int :: 0 <= j && j < head(len(sorted)) && head(sorted[j].Criterion) == result[resultPosition] && total == head(total) - head(sorted[j].Weight)
 //@   loop 1 hint [inverse_of_the_shifted_importance] let k = i in sorted[k].Weight == minWeight / (head(sorted[k].Weight) + dif) && total == head(total) + sorted[k].Weight
 
 // Parse: the ordering is the one the request names; none named stays empty (the first registered resolver is then taken)
@@ -82,40 +83,40 @@ package criteria_ordering
 
 // ---- registered names (what a request must say to select this object; what error messages list)
 //@ func (*RandomCriteriaOrderingResolver).Identifier
-//@   property C15 C20
+//@   property C15 C20 C01 C03 C04 C05 C06 C07 C08 C09 C11 C12 C13 C14 C16 C17 C18 C19
 //@   nopanic
 //@   ensures [name] result == "random"
 
 // ---- registered names (what a request must say to select this object; what error messages list)
 //@ func (*StrongestByProbabilityCriteriaOrderingResolver).Identifier
-//@   property C15 C20
+//@   property C15 C20 C01 C03 C04 C05 C06 C07 C08 C09 C11 C12 C13 C14 C16 C17 C18 C19
 //@   nopanic
 //@   ensures [name] result == "strongestByProbability"
 
 // ---- registered names (what a request must say to select this object; what error messages list)
 //@ func (*StrongestCriteriaOrderingResolver).Identifier
-//@   property C15 C20
+//@   property C15 C20 C01 C03 C04 C05 C06 C07 C08 C09 C11 C12 C13 C14 C16 C17 C18 C19
 //@   nopanic
 //@   ensures [name] result == "strongest"
 
 // ---- registered names (what a request must say to select this object; what error messages list)
 //@ func (*WeakestByProbabilityCriteriaOrderingResolver).Identifier
-//@   property C15 C20
+//@   property C15 C20 C01 C03 C04 C05 C06 C07 C08 C09 C11 C12 C13 C14 C16 C17 C18 C19
 //@   nopanic
 //@   ensures [name] result == "weakestByProbability"
 
 // ---- registered names (what a request must say to select this object; what error messages list)
 //@ func (*WeakestCriteriaOrderingResolver).Identifier
-//@   property C15 C20
+//@   property C15 C20 C01 C03 C04 C05 C06 C07 C08 C09 C11 C12 C13 C14 C16 C17 C18 C19
 //@   nopanic
 //@   ensures [name] result == "weakest"
 
 // ---- the random ordering: a permutation of the criteria drawn from the request's seed
 //@ func parseRandomOrderingProps
-//@   property C15 C16
+//@   property C15 C16 C01 C07 C09 C20
 //@   ensures [seed_as_requested] fresh(result) && result.RandomSeed == (decoded_has(*props, "RandomSeed") ? decoded_int(*props, "RandomSeed") : 0)
 //@ func (*RandomCriteriaOrderingResolver).OrderCriteria
-//@   property C15 C16
+//@   property C15 C16 C01 C07 C09 C20
 //@   fnparam .Generator pure
 //@   requires model.distinctCriteria(params.Criteria)
 //@   ensures [permutation] result != nil && fresh(result) && fresh(*result) && model.rearranged(*result, params.Criteria)
